@@ -170,6 +170,8 @@ class FGen:
             names += opt
         args = [self.arg_for() for _ in names]
         spell = self.rng.choice(["pos", "pos", "kw", "idx"]) if args else "pos"
+        if spell == "idx" and not recv and self.rng.random() < 0.9:
+            spell = "pos"    # bare-name subscription is a TypeError inside formulas (cells are bound as callables)
         e = ["call", recv, n, args, spell, names]
         return e
 
